@@ -116,7 +116,7 @@ def run_wait(w):
     pm, ps, pre, cnt = int(w[0]), int(w[1]), int(w[2]), int(w[3])
     IMEM, MAIN = 0x100000, 0xC1000
     emu = PCE500Emulator(save_lcd_on_exit=False)
-    main = bytes([0x00] * pre + [0x0B, cnt & 0xFF, (cnt >> 8) & 0xFF, 0xEF, 0x00, 0x00])
+    main = bytes([0x00] * pre + [0x0B, cnt & 0xFF, (cnt >> 8) & 0xFF, 0xEF] + [0x00] * 24)
     rom = bytearray(0x40000)
     rom[MAIN - 0xC0000:MAIN - 0xC0000 + len(main)] = main
     emu.load_rom(bytes(rom))
@@ -129,8 +129,6 @@ def run_wait(w):
     emu._timer_sti_period = ps
     emu._timer_next_mti = emu.cycle_count + pm
     emu._timer_next_sti = emu.cycle_count + ps
-    for _ in range(pre + 1):
-        emu.step()
     sch = emu._scheduler
     log = []
     orig = sch.advance
@@ -140,12 +138,26 @@ def run_wait(w):
         log.append((int(cycle), fired))
         return fired
 
-    sch.advance = spy
-    c0, m0, s0 = emu.cycle_count, sch.next_mti, sch.next_sti
-    try:
-        emu.step()
-    finally:
-        del sch.advance
+    whole = len(w) > 4 and w[4] == "all"
+    if whole:
+        # observe the whole run: single-instruction steps before and after the WAIT as well (interrupts stay masked, so a
+        # request remains pending throughout)
+        sch.advance = spy
+        c0, m0, s0 = emu.cycle_count, sch.next_mti, sch.next_sti
+        try:
+            for _ in range(pre + 2 + 16):
+                emu.step()
+        finally:
+            del sch.advance
+    else:
+        for _ in range(pre + 1):
+            emu.step()
+        sch.advance = spy
+        c0, m0, s0 = emu.cycle_count, sch.next_mti, sch.next_sti
+        try:
+            emu.step()
+        finally:
+            del sch.advance
     fm = [str(c) for c, f in log if TimerSource.MTI in f]
     fs = [str(c) for c, f in log if TimerSource.STI in f]
     isr = emu.memory.read_byte(IMEM + 0xFC) & 0xFF
